@@ -2,8 +2,9 @@ from specs.common import run, ASSUME_COMMON
 
 SPEC = {
     "runs": [
-        run("e1-model", "c05_span_identity", "asan", 16000, 1500000),
-        run("e2-threads", "c05_span_identity", "tsan", 600, 40000, params={"mode": "threads"}),
+        run("e1-model", "c05_span_identity", "asan", 16000, 1000000),
+        run("e2-threads", "c05_span_identity", "tsan", 600, 24000, params={"mode": "threads"},
+            timeout={"quick": 180, "thorough": 3600}),
         run("e5-fork", "c05_span_identity", "asan", 48, 960, sq=2, st=4, params={"mode": "fork"}),
     ],
     "floors": {
@@ -11,12 +12,15 @@ SPEC = {
                   "decisive_explicit_over_active": 500, "sampler_drop_under_sampled_parent": 500,
                   "sampler_sample_under_unsampled_parent": 500, "sampler_trace_state_given": 200,
                   "nonrecording_spans": 200, "exported_checked": 1000, "parent_with_extra_flag_bits": 500,
-                  "out_of_order_scope_release": 200, "thread_cases_ge2": 40, "fork_cases_generator_warm": 8},
+                  "out_of_order_scope_release": 200, "sampler_trace_state_differs_from_parent": 200,
+                  "thread_cases_ge2": 40, "starts_overlapping_another_thread": 2000, "fork_cases_generator_warm": 8},
         "thorough": {"decisive_spancontext": 50000, "decisive_context": 50000, "decisive_active": 50000,
                      "decisive_explicit_over_active": 50000, "sampler_drop_under_sampled_parent": 50000,
                      "sampler_sample_under_unsampled_parent": 50000, "sampler_trace_state_given": 20000,
                      "nonrecording_spans": 20000, "exported_checked": 100000, "parent_with_extra_flag_bits": 50000,
-                     "out_of_order_scope_release": 20000, "thread_cases_ge2": 3000, "fork_cases_generator_warm": 120},
+                     "out_of_order_scope_release": 20000, "sampler_trace_state_differs_from_parent": 20000,
+                     "thread_cases_ge2": 3000, "starts_overlapping_another_thread": 100000,
+                     "fork_cases_generator_warm": 120},
     },
     "engine": "E1 model-oracle",
     "engines_used": ("E1 model-oracle", "E2 history"),
@@ -32,7 +36,11 @@ SPEC = {
                    "plus per-thread isolation, and a model decides every start."),
     "level_note": ("trusts the StartSpan/runtime-stack model and the test doubles in harness/c05_span_identity.cc, gcc "
                    "ASan/UBSan/TSan; covers only generated trees (<= 70 operations), the default thread-local runtime "
-                   "context storage, a simple processor, 1..8 threads, ids drawn directly after fork()"),
+                   "context storage, a simple processor, 1..8 threads, ids drawn directly after fork(). Self-test: 20 scratch "
+                   "mutations of tracer.cc/span.cc/random.cc/runtime_context.h (explicit parent overridden by the active "
+                   "span, exported parent id from the active span, root mark ignored, parent's trace state preferred over "
+                   "the sampler's, dropped spans exported, span id reused per trace, level-1 mask removed, no reseed at "
+                   "fork, runtime stack shared by threads, constant seed, ...) each gave exit 1 under a matching key"),
     "rule": ("model run: case i = one provider (sampler drawn from Scripted, ParentBased(Scripted), AlwaysOn, AlwaysOff, "
              "ParentBased(On/Off/Ratio), TraceIdRatioBased(r); random or sequential non-random id generator) and one seeded "
              "program of 8..70 operations: StartSpan with default options / explicit SpanContext (local, remote with any "
